@@ -36,7 +36,9 @@ SIG_NNLS_VMAX = 'C11:invert_regularised_nnls:max(b)<=0:normalisation-divides-by-
 def gen_matrix(rng, m, n):
     """returns (W as list of rows of python floats >= 0, class name)"""
     kind = rng.choice(['dense', 'dense', 'sparse', 'sparse', 'zero-rows', 'zero-cols', 'zero-rows-cols', 'rank-deficient',
-                       'rank1', 'integer', 'scaled'])
+                       'rank1', 'integer', 'scaled', 'mixed-magnitude', 'mixed-magnitude'])
+    if kind == 'mixed-magnitude':
+        return mixed_matrix(rng, m, n), kind
     W = [[rng.uniform(0.05, 2.0) for _ in range(n)] for _ in range(m)]
     if kind in ('sparse', 'zero-rows', 'zero-cols', 'zero-rows-cols'):
         p = rng.uniform(0.3, 0.7)
@@ -66,6 +68,39 @@ def gen_matrix(rng, m, n):
         s = 10.0 ** rng.randint(-3, 3)
         W = [[v * s for v in r] for r in W]
     return W, kind
+
+
+def mixed_matrix(rng, m, n):
+    """rows and columns spanning up to 20 decades: grazing sight lines (tiny rows), tiny voxels (tiny columns), and voxels that
+    are seen *only* by tiny rows"""
+    W = [[rng.uniform(0.05, 2.0) if rng.random() < 0.7 else 0.0 for _ in range(n)] for _ in range(m)]
+    rs = [1.0] * m
+    cs = [1.0] * n
+    tiny_rows = rng.sample(range(m), rng.randint(1, max(1, m // 2)))
+    for i in tiny_rows:
+        rs[i] = 10.0 ** -rng.randint(6, 20)
+    for j in range(n):
+        if rng.random() < 0.25:
+            cs[j] = 10.0 ** -rng.randint(3, 20)
+    W = [[v * rs[i] * cs[j] for j, v in enumerate(r)] for i, r in enumerate(W)]
+    # some voxels are seen only by grazing rows
+    for j in rng.sample(range(n), rng.randint(1, max(1, n // 2))):
+        i0 = rng.choice(tiny_rows)
+        for i in range(m):
+            if i not in tiny_rows:
+                W[i][j] = 0.0
+        if W[i0][j] == 0.0:
+            W[i0][j] = rng.uniform(0.05, 2.0) * rs[i0] * cs[j]
+    return W
+
+
+def mixed_b(rng, W, m, n):
+    """measurements of the magnitude of their own row (consistent up to a relative perturbation)"""
+    xt = [rng.uniform(0.2, 3) for _ in range(n)]
+    b = [math.fsum(w * x for w, x in zip(r, xt)) * (1 + rng.choice([0.0, rng.uniform(-0.1, 0.1)])) for r in W]
+    if not any(v != 0 for v in b):
+        b[rng.randrange(m)] = 1.0
+    return b, 'row-magnitude'
 
 
 def gen_b(rng, W, m, n):
@@ -230,7 +265,7 @@ def sart_cases(ctx, n_cases, big):
         m = rng.randint(1, big)
         n = rng.randint(1, big)
         W, wk = gen_matrix(rng, m, n)
-        b, bk = gen_b(rng, W, m, n)
+        b, bk = mixed_b(rng, W, m, n) if wk == 'mixed-magnitude' else gen_b(rng, W, m, n)
         mk, gtok, gk = gen_guess(rng, n)
         constrained = rng.random() < 0.45
         relax = rng.choice([1.0, 1.0, 0.5, 0.1, 1.5, rng.uniform(0.05, 1.9)])
@@ -364,7 +399,9 @@ def exact_system(rng):
     operation of a few SART sweeps on small dyadic data is exact in binary64"""
     blocks = []
     for _ in range(rng.randint(1, 3)):
-        blocks.append((2 ** rng.randint(0, 1), 2 ** rng.randint(0, 1), 2.0 ** rng.randint(-1, 1)))
+        # some blocks are 2^-60 .. 2^-70 of the others: grazing rows whose voxels no other row sees (scaling by a power of two is exact)
+        e = rng.randint(-1, 1) if rng.random() < 0.6 else -rng.randint(55, 70)
+        blocks.append((2 ** rng.randint(0, 1), 2 ** rng.randint(0, 1), 2.0 ** e))
     zr, zc = rng.randint(0, 1), rng.randint(0, 1)
     m = sum(p for p, _, _ in blocks) + zr
     n = sum(q for _, q, _ in blocks) + zc
@@ -379,7 +416,7 @@ def exact_system(rng):
     rows = list(range(m)); rng.shuffle(rows)
     cols = list(range(n)); rng.shuffle(cols)
     W = [[W[i][j] for j in cols] for i in rows]
-    b = [float(rng.randint(0, 8)) for _ in range(m)]
+    b = [float(rng.randint(0, 8)) * (max(r) if max(r) > 0 and max(r) < 1e-10 else 1.0) for r in W]   # measurement of its row's magnitude
     if not any(b):
         b[0] = 4.0
     return W, b, m, n
@@ -794,7 +831,7 @@ def lsq_stream(ctx):
     for it in range(ctx.n(700, 30000)):
         m, n = rng.randint(1, big), rng.randint(1, big)
         W, wk = gen_matrix(rng, m, n)
-        b, bk = gen_b(rng, W, m, n)
+        b, bk = mixed_b(rng, W, m, n) if wk == 'mixed-magnitude' else gen_b(rng, W, m, n)
         zclass = None
         if it % 11 == 5:
             zclass = rng.choice(['all-zero', 'all-negative', 'non-positive'])
@@ -1044,6 +1081,24 @@ def _same_result(a, b):
         return repr(a) == repr(b)
 
 
+def sart_entry(d, st, res):
+    """the model line and comparison record of one SART call described by d (mathematical values)"""
+    fn = d['func']
+    g = d['guess']
+    n = len(d['W'][0])
+    x0 = np.zeros(n) + (float(np.exp(-1)) if g is None else g) if not isinstance(g, list) else np.array(g, float)
+    gtok = ('0 ' + f2b(float(np.exp(-1)))) if g is None else ('1 ' + f2b(g)) if not isinstance(g, list) else '2 %d %s' % (n, fs(g))
+    m = len(d['W'])
+    if fn == 'invert_constrained_sart':
+        line = 'csart %d %d %d %s %s %s %s %s %s %s' % (n, m, d['max_iterations'], f2b(d['relaxation']), f2b(d['conv_tol']), f2b(d['beta']), gtok,
+                                                       fs(flat(d['W'])), fs(d['b']), fs(flat(d['L'])))
+    else:
+        line = 'sart %d %d %d %s %s %s %s %s' % (n, m, d['max_iterations'], f2b(d['relaxation']), f2b(d['conv_tol']), gtok, fs(flat(d['W'])), fs(d['b']))
+    c = dict(line=line, st=st, res=res, desc=dict(d, x0=[float(v) for v in x0]), n=n, x0=x0, W=d['W'], b=d['b'],
+             L=d.get('L') if fn == 'invert_constrained_sart' else None, beta=d.get('beta') or 0.0, relax=d['relaxation'], tol=d['conv_tol'], maxit=d['max_iterations'])
+    return ('sart', line, c, d)
+
+
 def rep_case_run(ctx, rng, d, pending):
     """execute one representation case: standing oracles (arguments untouched, repeatable), S oracles from the mathematical
     values; queues the model lines (acceptance + values) in `pending`"""
@@ -1093,19 +1148,7 @@ def rep_case_run(ctx, rng, d, pending):
         return
     f32 = any(v in ('f32', 'npf32') for v in r.values())
     if sart:
-        g = d['guess']
-        n = len(d['W'][0])
-        x0 = np.zeros(n) + (float(np.exp(-1)) if g is None else g) if not isinstance(g, list) else np.array(g, float)
-        gtok = ('0 ' + f2b(float(np.exp(-1)))) if g is None else ('1 ' + f2b(g)) if not isinstance(g, list) else '2 %d %s' % (n, fs(g))
-        m = len(d['W'])
-        if fn == 'invert_constrained_sart':
-            line = 'csart %d %d %d %s %s %s %s %s %s %s' % (n, m, d['max_iterations'], f2b(d['relaxation']), f2b(d['conv_tol']), f2b(d['beta']), gtok,
-                                                           fs(flat(d['W'])), fs(d['b']), fs(flat(d['L'])))
-        else:
-            line = 'sart %d %d %d %s %s %s %s %s' % (n, m, d['max_iterations'], f2b(d['relaxation']), f2b(d['conv_tol']), gtok, fs(flat(d['W'])), fs(d['b']))
-        c = dict(line=line, st=st, res=res1, desc=dict(d, x0=[float(v) for v in x0]), n=n, x0=x0, W=d['W'], b=d['b'],
-                 L=d.get('L') if fn == 'invert_constrained_sart' else None, beta=d.get('beta') or 0.0, relax=d['relaxation'], tol=d['conv_tol'], maxit=d['max_iterations'])
-        pending.append(('sart', line, c, d))
+        pending.append(sart_entry(d, st, res1))
     else:
         which = {'invert_regularised_nnls': 'nnls', 'invert_regularised_lstsq': 'lstsq', 'invert_svd': 'svd'}[fn]
         M = dict(W=d['W'], b=d['b'], alpha=d.get('alpha', 0.0), L=d.get('L'))
@@ -1152,6 +1195,115 @@ def rep_flush(ctx, pending):
             lsq_lines.append(line); lsq_checks.append(x)
     if lsq_lines:
         lsq_compare(ctx, lsq_lines, lsq_checks)
+
+
+# ------------------------------------------------------------------------------------------------- histories
+
+def gen_history(rng):
+    """consecutive calls of one entry point with the SAME argument objects whose contents are edited in place between the calls
+    (or replaced by fresh objects of the same shape, or left alone); alpha / beta equal or changed.  JSON-able: every step lists
+    the full contents at call time."""
+    fn = rng.choice(['invert_sart', 'invert_constrained_sart', 'invert_regularised_nnls', 'invert_regularised_nnls',
+                     'invert_regularised_lstsq', 'invert_regularised_lstsq', 'invert_svd'])
+    sart = fn in ('invert_sart', 'invert_constrained_sart')
+    m, n = rng.randint(2, 6), rng.randint(2, 6)
+    W, _ = gen_matrix(rng, m, n)
+    W = [[abs(v) for v in r] for r in W]
+    xt = [rng.uniform(0.2, 3) for _ in range(n)]
+    b = [math.fsum(w * x for w, x in zip(r, xt)) + 1e-3 for r in W]
+    useL = fn == 'invert_constrained_sart' or (not sart and fn != 'invert_svd' and rng.random() < 0.7)
+    L = (gen_laplacian(rng, n)[0] if rng.random() < 0.6 else [[rng.uniform(-1, 1) for _ in range(n)] for _ in range(n)]) if useL else None
+    alpha = rng.choice([0.05, 0.5, 1.0])
+    beta = rng.choice([0.01, 0.05])
+    steps = []
+    for k in range(rng.randint(2, 5)):
+        mode = 'first' if k == 0 else rng.choice(['edit-W', 'edit-W', 'edit-L', 'edit-b', 'edit-W-and-b', 'unchanged', 'fresh-W', 'fresh-L'])
+        W = [list(r) for r in W]; b = list(b); L = None if L is None else [list(r) for r in L]
+        if mode in ('edit-W', 'edit-W-and-b', 'fresh-W'):
+            how = rng.choice(['zero-row', 'scale-col', 'new-entries'])
+            if how == 'zero-row':
+                i = rng.randrange(m); W[i] = [0.0] * n
+                if mode == 'edit-W-and-b':
+                    b[i] = 0.0
+            elif how == 'scale-col':
+                j = rng.randrange(n); f = rng.choice([0.0, 0.5, 3.0])
+                for r in W:
+                    r[j] *= f
+            else:
+                W = [[rng.uniform(0.05, 2.0) if rng.random() < 0.7 else 0.0 for _ in range(n)] for _ in range(m)]
+            if mode == 'edit-W-and-b':
+                b = [math.fsum(w * x for w, x in zip(r, xt)) * 1.3 + 1e-3 for r in W]
+        if mode in ('edit-L', 'fresh-L') and L is not None:
+            L = [[v * rng.choice([1.0, 2.0, 0.0]) + (rng.uniform(-0.5, 0.5) if rng.random() < 0.3 else 0.0) for v in r] for r in L]
+        if mode == 'edit-b':
+            b = [v * rng.uniform(0.5, 2.0) for v in b]
+        if not any(b):
+            b[0] = 1.0
+        if k > 0 and rng.random() < 0.25:
+            alpha = rng.choice([0.05, 0.5, 1.0]); beta = rng.choice([0.01, 0.05])
+        steps.append(dict(mode=mode, W=W, b=b, L=L, alpha=alpha, beta=beta))
+    h = dict(func=fn, history_case=True, steps=steps)
+    if sart:
+        h.update(guess=rng.choice([None, 1.0, 0.0]), max_iterations=rng.choice([1, 2, 5]), relaxation=rng.choice([1.0, 0.7]), conv_tol=rng.choice([1e-4, -1.0]))
+    return h
+
+
+def run_history(ctx, rng, h, pending):
+    """every call must be certified for the contents the argument objects hold at call time"""
+    import cherab.tools.inversions as inv
+    fn = h['func']
+    sart = fn in ('invert_sart', 'invert_constrained_sart')
+    s0 = h['steps'][0]
+    Wo = np.array(s0['W'], float); bo = np.array(s0['b'], float); Lo = None if s0['L'] is None else np.array(s0['L'], float)
+    for k, stp in enumerate(h['steps']):
+        if stp['mode'].startswith('fresh-W'):
+            Wo = np.array(stp['W'], float)
+        else:
+            Wo[...] = stp['W']
+        bo[...] = stp['b']
+        if Lo is not None:
+            if stp['mode'] == 'fresh-L':
+                Lo = np.array(stp['L'], float)
+            else:
+                Lo[...] = stp['L']
+        d = dict(func=fn, W=stp['W'], b=stp['b'], L=stp['L'], history_case=True, steps=h['steps'], failing_step=k, mode=stp['mode'],
+                 **{q: h[q] for q in ('guess', 'max_iterations', 'relaxation', 'conv_tol') if q in h})
+        snaps = [snap(v) for v in (Wo, bo, Lo)]
+        ctx.count('history:%s:%s' % (fn, stp['mode']))
+        if sart:
+            d['beta'] = stp['beta'] if fn == 'invert_constrained_sart' else None
+            kw = dict(initial_guess=h['guess'], max_iterations=h['max_iterations'], relaxation=h['relaxation'], conv_tol=h['conv_tol'])
+            with np.errstate(all='ignore'):
+                if fn == 'invert_sart':
+                    st, res = call(inv.invert_sart, Wo, bo, **kw)
+                else:
+                    st, res = call(inv.invert_constrained_sart, Wo, Lo, bo, beta_laplace=stp['beta'], **kw)
+            pending.append(sart_entry(d, st, res))
+        else:
+            which = {'invert_regularised_nnls': 'nnls', 'invert_regularised_lstsq': 'lstsq', 'invert_svd': 'svd'}[fn]
+            d['alpha'] = stp['alpha']; d['tikhonov_matrix'] = stp['L']
+            args = (Wo, bo) if which == 'svd' else (Wo, bo, stp['alpha'], Lo)
+            st, res, calls = spied(which, getattr(inv, fn), args, {})
+            M = dict(W=stp['W'], b=stp['b'], alpha=stp['alpha'], L=None if which == 'svd' else stp['L'])
+            lines, checks = [], []
+            lsq_judge(ctx, rng, which, M, st, res, calls, d, lines, checks)
+            for l, ch in zip(lines, checks):
+                pending.append(('lsq', l, ch, d))
+        for nm, v, sn in zip(('W', 'b', 'L'), (Wo, bo, Lo), snaps):
+            if snap(v) != sn:
+                pn = (dict(W='geometry_matrix', b='measurement_vector', L='laplacian_matrix') if sart else dict(W='w_matrix', b='b_vector', L='tikhonov_matrix'))[nm]
+                ctx.fail('C11:%s:argument-%s-modified' % (fn, pn), 'the caller\'s %s was modified by call %d of a history' % (pn, k), d)
+
+
+def history_stream(ctx):
+    rng = ctx.rng
+    pending = []
+    for it in range(ctx.n(250, 5000)):
+        h = gen_history(rng)
+        ctx.case(key=('history', h['func'], tuple(s_['mode'] for s_ in h['steps']), len(h['steps'][0]['W']), len(h['steps'][0]['W'][0])),
+                 sample=dict(func=h['func'], modes=[s_['mode'] for s_ in h['steps']], first_W=h['steps'][0]['W']) if it % 83 == 2 else None)
+        run_history(ctx, rng, h, pending)
+    rep_flush(ctx, pending)
 
 
 # ------------------------------------------------------------------------------------------------- certificate functions
@@ -1215,6 +1367,7 @@ def run(ctx):
     fixed_point_stream(ctx)
     lsq_stream(ctx)
     repr_stream(ctx)
+    history_stream(ctx)
     certificate_stream(ctx)
 
 
@@ -1229,6 +1382,15 @@ def _replay_case(ctx, r, from_corpus=False):
     """re-execute one stored failing input against the real code with the direct oracle"""
     import cherab.tools.inversions as inv
     fn = r.get('func')
+    if r.get('history_case'):
+        pending = []
+        nf = len(ctx.failing) + len(ctx.known_hits)
+        ctx.case(key=('replay-history', fn, r.get('failing_step')))
+        run_history(ctx, ctx.rng, {k: r[k] for k in ('func', 'history_case', 'steps', 'guess', 'max_iterations', 'relaxation', 'conv_tol') if k in r}, pending)
+        rep_flush(ctx, pending)
+        if not from_corpus and nf == len(ctx.failing) + len(ctx.known_hits):
+            ctx.log('replay: the property holds on this history now')
+        return
     if r.get('representation_case'):
         d = {k: v for k, v in r.items() if k not in ('returned_x', 'reported_norm', 'returned_solution', 'returned_convergence', 'gradient', 'better_point', 'x0', 'tikhonov_matrix')}
         pending = []
@@ -1276,7 +1438,7 @@ def _replay_case(ctx, r, from_corpus=False):
 def replay(ctx, path):
     r = json.load(open(path))
     print(json.dumps(r, indent=1, default=str)[:3000])
-    if r.get('kind') == 'failing-input' and (r.get('replay', {}).get('representation_case') or r.get('replay', {}).get('func') in ('invert_regularised_nnls', 'invert_sart', 'invert_constrained_sart')):
+    if r.get('kind') == 'failing-input' and (r.get('replay', {}).get('representation_case') or r.get('replay', {}).get('history_case') or r.get('replay', {}).get('func') in ('invert_regularised_nnls', 'invert_sart', 'invert_constrained_sart')):
         _replay_case(ctx, r['replay'])
         ctx.rule = 'replay of one stored failing input against the real code with the direct oracle'
         return ctx.finish()
